@@ -1,10 +1,10 @@
 (* ===== P1.v ===== *)
-From Coq Require Import List Arith Bool Lia Permutation.
+From Coq Require Import List Arith Bool Lia Permutation NArith.
 Import ListNotations.
-Require Import Scope2.
+Require Import Scope.
 
 Section P.
-Variable isnum : nat -> bool.
+Variable isnum : fid_t -> bool.
 Notation required := (required isnum).
 Notation covers := (covers isnum).
 Notation count := (count isnum).
@@ -16,7 +16,7 @@ Definition b2n (b : bool) := if b then 1 else 0.
 Lemma covers_spec t c : covers t c = true <->
   (forall f, In f t -> required f = true -> In (fid f) c) /\ (forall i, In i c -> In i (map fid t)).
 Proof.
-  unfold Scope2.covers. rewrite andb_true_iff, !forallb_forall. split.
+  unfold Scope.covers. rewrite andb_true_iff, !forallb_forall. split.
   - intros [H1 H2]. split.
     + intros f Hf Hr. specialize (H1 f Hf). rewrite Hr in H1. cbn in H1. apply memn_spec, H1.
     + intros i Hi. apply memn_spec, H2, Hi.
@@ -47,11 +47,11 @@ Proof.
 Qed.
 
 Lemma count_app c a b : count c (a ++ b) = count c a + count c b.
-Proof. unfold Scope2.count. rewrite filter_app, app_length. reflexivity. Qed.
+Proof. unfold Scope.count. rewrite filter_app, app_length. reflexivity. Qed.
 Lemma count_cons c t l : count c (t :: l) = b2n (covers t c) + count c l.
-Proof. unfold Scope2.count. cbn. destruct (covers t c); reflexivity. Qed.
+Proof. unfold Scope.count. cbn. destruct (covers t c); reflexivity. Qed.
 Lemma count_one c t : count c [t] = b2n (covers t c).
-Proof. rewrite count_cons. unfold Scope2.count. cbn. lia. Qed.
+Proof. rewrite count_cons. unfold Scope.count. cbn. lia. Qed.
 Lemma count_perm c a b : Permutation a b -> count c a = count c b.
 Proof. induction 1; rewrite ?count_cons; cbn; try lia. Qed.
 
